@@ -577,5 +577,8 @@ def run(model, rep, tier):
     check_compiled_subset_dependencies(model, rep, rule='R06.2')
     check_fields_announced(model, rep, rule='R06.2')
     rep.require('R06.1', 14)
+    rep.rule('R06.10', 'every name loaded in evaluable.py resolves (symtable)')
+    from rules import names as _names
+    _names.check(model, rep, 'R06.10', ('evaluable',), 850)
     rep.require('R06.4', 12)
     rep.require('R06.3', 6)
